@@ -893,14 +893,19 @@ class Time(object):
         try:
             parts = s.split('.')
             base_time = time.strptime(parts[0], "%H:%M:%S")
-            self.nanosecond_time = (base_time.tm_hour * Time.HOUR +
-                                    base_time.tm_min * Time.MINUTE +
-                                    base_time.tm_sec * Time.SECOND)
+            nanos = (base_time.tm_hour * Time.HOUR +
+                     base_time.tm_min * Time.MINUTE +
+                     base_time.tm_sec * Time.SECOND)
 
-            if len(parts) > 1:
+            if len(parts) > 1 and parts[1]:
+                if len(parts) > 2 or len(parts[1]) > 9 or not (parts[1].isascii() and parts[1].isdigit()):
+                    raise ValueError("fraction must be 1 to 9 digits")
                 # right pad to 9 digits
                 nano_time_str = parts[1] + "0" * (9 - len(parts[1]))
-                self.nanosecond_time += int(nano_time_str)
+                nanos += int(nano_time_str)
+
+            # strptime accepts leap seconds (:60, :61): the result must still lie within the day
+            self._from_timestamp(nanos)
 
         except ValueError:
             raise ValueError("can't interpret %r as a time" % (s,))
